@@ -11,7 +11,7 @@ RULE = ("Exhaustive part: every ordered pair of monomials of length <=4/3/2 over
         "equality and commutation predicates.  Random part: Hypothesis generates polynomials A, B, C over M<=5 modes: 1-4 monomials each, every monomial a product of 0-6 creation/annihilation "
         "operators in arbitrary order, coefficients from {0,+-1/4,+-1/2,+-1,+-2} (complex in the complex build), sometimes B a re-written form "
         "of A (permuted factors with the fermionic sign, split coefficients) so that equality holds non-trivially.  For A*B, (A*B)*C, A*(B*C), "
-        "A+B, A-B, -A, scalar multiples, A+-x, x-A, [A,B], {A,B}, {c_i,c+_j} the matrix obtained from pomerol (both from the returned "
+        "A+B, A-B, -A, scalar multiples, A+-x, x-A, [A,B], {A,B}, {c_i,c+_j} and the compound assignments A*=B, A+=B, A-=B, A*=A, A+=A (same object on both sides) the matrix obtained from pomerol (both from the returned "
         "normal-ordered monomials and from Operator::actRight / getMatrixElement on every Fock state) is compared with the same expression of "
         "numpy Jordan-Wigner matrices; A==B and A.commutes(B) must agree with matrix equality / commutation; OperatorPresets::N and Sz (both "
         "constructors) must act like their generic polynomial on every Fock state.  Non-trivial: a product needing a contraction and a sign "
@@ -208,6 +208,10 @@ def execute(case, ctx):
     add("ApB", "alg add ApB A B"); add("AmB", "alg sub AmB A B"); add("nA", "alg neg nA A"); add("xA", "alg scale xA A %s" % xs)
     add("Apx", "alg addc Apx A %s" % xs); add("Amx", "alg subc Amx A %s" % xs); add("xmA", "alg csub xmA A %s" % xs)
     add("cAB", "alg comm cAB A B"); add("aAB", "alg acomm aAB A B")
+    # compound assignments, also with the same object on both sides (P *= P, P += P)
+    for reg in ("P", "Q", "R", "S", "T"):
+        sc.add(M.poly_line("alg set %s" % reg, case["A"], by_label=False))
+    add("P", "alg imul P P"); add("Q", "alg iadd Q Q"); add("R", "alg imul R B"); add("S", "alg isub S B"); add("T", "alg iadd T B")
     sc.add("alg set ci 1 1.0 0.0 1 0 %d" % i); sc.add("alg set cdj 1 1.0 0.0 1 1 %d" % j)
     add("car", "alg acomm car ci cdj")
     sc.add("alg eq A B", "eq"); sc.add("alg eq B A", "eq2"); sc.add("alg eq A A", "eqAA")
@@ -238,7 +242,7 @@ def execute(case, ctx):
     I = np.eye(1 << Mm)
     c_, cd_ = oracle.jw_all(Mm)
     want = {"A": A, "B": B, "C": C, "AB": A @ B, "BC": B @ C, "AB_C": A @ B @ C, "A_BC": A @ B @ C, "ApB": A + B, "AmB": A - B, "nA": -A,
-            "xA": xv * A, "Apx": A + xv * I, "Amx": A - xv * I, "xmA": xv * I - A, "cAB": A @ B - B @ A, "aAB": A @ B + B @ A,
+            "xA": xv * A, "Apx": A + xv * I, "Amx": A - xv * I, "xmA": xv * I - A, "cAB": A @ B - B @ A, "aAB": A @ B + B @ A, "P": A @ A, "Q": 2 * A, "R": A @ B, "S": A - B, "T": A + B,
             "car": (I if i == j else 0 * I)}
     for tag, W in want.items():
         a = ans.get(tag); am = ans.get(("mat", tag))
